@@ -78,12 +78,14 @@ static void prop(Ctx &c) {
     c.checkpoint();
 
     // ---- reference expectation: which chunks must be fetched
+    // the header phase writes B's first max(min-download-size, header length) bytes into the target (for a tiny B that includes body bytes)
+    Bytes T1 = T0; { size_t hp = std::min<size_t>(std::max<size_t>((size_t)zck_get_min_download_size(), B.h.total_size), B.file.size()); if (T1.size() < hp) T1.resize(hp); memcpy(T1.data(), B.file.data(), hp); }
     std::vector<bool> need(n, false); size_t reused_target = 0, reused_A = 0, fetched = 0;
     ref::Header ha; if (haveA) ha = A.h;
     for (size_t i = 0; i < n; i++) {
         size_t off = B.off(i), cl = B.clen(i);
         if (cl == 0) continue;                                   // empty dictionary: nothing to fetch
-        bool in_t = off + cl <= T0.size() && ref::digest((int)B.h.chunk_hash_type, T0.data() + off, cl) == B.h.entries[i].digest;
+        bool in_t = off + cl <= T1.size() && ref::digest((int)B.h.chunk_hash_type, T1.data() + off, cl) == B.h.entries[i].digest;
         bool in_a = false;
         if (haveA && !in_t) for (auto &e : ha.entries) if (e.digest == B.h.entries[i].digest && e.comp_len == B.h.entries[i].comp_len && e.len == B.h.entries[i].len) in_a = true;
         if (in_t) reused_target++; else if (in_a) reused_A++; else { need[i] = true; fetched++; }
